@@ -118,6 +118,12 @@ func runConsole(cfg *config) {
 			}
 			cases = append(cases, consoleCase{expect: st, keys: typeOut(rr, st, rr.Intn(11))})
 		}
+		// statements longer than the terminal's 256-byte read buffer, with multi-byte characters and
+		// non-ASCII spaces / format characters at every alignment with the buffer boundary
+		for k := 228; k <= 262; k++ {
+			st := []string{"INSERT INTO t VALUES ('" + strings.Repeat("a", k) + "grüße 日本語 😀 prix\u00a0: 10\u00a0€ 山田\u3000太郎 a\u200db\u00adc\ufeffd');", "SELECT 'olé', 'ſ';"}
+			cases = append(cases, consoleCase{expect: st, keys: typeOut(r.Fork(), st, 0)})
+		}
 		// correspondence only: unfinished input, blank lines, ignored control keys, very long lines
 		for i := 0; i < 60*cfg.scale; i++ {
 			rr := r.Fork()
